@@ -62,8 +62,9 @@ func VerifC09Stable() {
 	c, _ := vNewConn(rec, []uint16{0x0200, 0x0002, 0x0801})
 	kinds := make([]int, nReads)
 	for i := 0; i < nReads; i++ {
-		// 0: one escape-free frame, 1: one frame with an escaped byte, 2: two frames in one read
-		kinds[i] = vrt_Choose("readKind", 3)
+		// 0: one escape-free frame, 1: one frame with an escaped byte, 2: two frames in one read,
+		// 3: a complete two-packet sub-packaged message in one read (reassembled data must be stable too)
+		kinds[i] = vrt_Choose("readKind", 4)
 		switch kinds[i] {
 		case 0:
 			f := vGenFrame("f", 0x0200, false, 2, 0)
@@ -76,6 +77,9 @@ func VerifC09Stable() {
 			f.body[1] = sp
 			vNoSpecialChecksum(f)
 			vrt_ConnPushRead(c.conn, f.bytes())
+		case 3:
+			parts := c05Transfer("sp", 0x0801, 2, 0)
+			vrt_ConnPushRead(c.conn, append(parts[0].bytes(), parts[1].bytes()...))
 		case 2:
 			f1 := vGenFrame("a", 0x0002, false, 0, 0)
 			vNoSpecialChecksum(f1)
@@ -88,7 +92,7 @@ func VerifC09Stable() {
 	c.reader() // runs until the script ends (EOF), then stop() and the deferred clean-up
 	want := 0
 	for _, k := range kinds {
-		want++
+		want++ // kind 3: only the complete message reaches the callback (sub-packages are filtered)
 		if k == 2 {
 			want++
 		}
@@ -101,4 +105,5 @@ func VerifC09Stable() {
 	vrt_Assert(ok, "a delivered message changed after later data arrived or the connection closed")
 	vrt_Cover("fast-path-then-more", kinds[0] == 0)
 	vrt_Cover("buffered-path-then-more", kinds[0] == 2)
+	vrt_Cover("two-reassembled-messages", kinds[0] == 3 && kinds[1] == 3)
 }
